@@ -27,6 +27,12 @@ import NsyncVerif.Model.CvFix
       is rejected (this includes a wrong memory order).
   The calls `cv_enqueue` / `cv_dequeue` / `cv_ready_time` are not API events in the log; they are
   recognised by the function name in the site of their atomics.
+    * observers (C16): `call nsync_cv_debug_state|nsync_cv_debug_state_and_waiters|nsync_cv_debugger
+      cv<i> …` / `ret … -` are `callDebug` / `retDebug` of that cv; the atomics of `emit_cv_state`
+      on the cv word (debug.c/6, debug.c/7) are in `wordSite`; the loads of `emit_waiters`
+      (debug.c/0, debug.c/1) are PROPER events (`dbgW`, `dbgRc`) of the cv of the thread's debug
+      call in progress and foreign accesses for every other state; from a thread that is not inside
+      a cv debug call (emit_mu_state walking a mutex queue) they are foreign for every state.
 
   The log does not say whether the harness ran with counting or binary semaphores.  The driver
   runs both hypotheses side by side; a hypothesis that rejects a line is dropped; the line is
@@ -38,7 +44,7 @@ namespace NsyncVerif.CvFix.Driver
 
 /-- Driver-side context of a thread. -/
 structure TCtx where
-  /-- 0 none, 1 cv wait, 2 signal, 3 broadcast, 4 wait_n -/
+  /-- 0 none, 1 cv wait, 2 signal, 3 broadcast, 4 wait_n, 5 debug call (nsync_cv_debug_state…) -/
   api : Nat := 0
   /-- cv of the API call (1-3) / cv whose spinlock the thread took last (4) -/
   cv : String := ""
@@ -163,6 +169,13 @@ def wfn : String := "nsync_cv_wait_with_deadline_generic"
 
 /-- Site table: atomics of cv.c on record fields. -/
 def recSite (a : Atm) : Option RSite :=
+  if a.file == "debug.c" then
+    -- emit_waiters; proper only when called by emit_cv_state for the cv of the thread's debug call
+    match a.k, a.fn, a.op, a.ord with
+    | 0, "emit_waiters", "ld", "rlx" => some .dbgW
+    | 1, "emit_waiters", "ld", "rlx" => some .dbgRc
+    | _, _, _, _ => none
+  else
   if a.file != "cv.c" then none else
   match a.k, a.fn, a.op, a.ord with
   | 5, "wake_waiters", "st", "rel" => some .wake
@@ -203,6 +216,8 @@ def wordSite (a : Atm) : Option (Option WSite) :=
   | "cv.c", 28, "nsync_cv_broadcast", "st", "rel" => some (some .bcRel)
   | "cv.c", 31, "cv_enqueue", "st", "rel" => some (some .enqRel)
   | "cv.c", 34, "cv_dequeue", "st", "rel" => some (some .deqRel)
+  | "debug.c", 6, "emit_cv_state", "ld", "rlx" => some (some .dbgLd)
+  | "debug.c", 7, "emit_cv_state", "st", "rel" => some (some .dbgRel)
   | _, _, _, _, _ => none
 
 /-- Site table: atomics of cv.c on a mutex word. -/
@@ -298,6 +313,14 @@ def atmRec (al : Alt) (t : Tid) (r : Rid) (f : Fld) (a : Atm) : Res :=
           let al1 := if site == .enqSt then { al with home := (r, cv) :: al.home.filter (fun p => p.1 != r) } else al
           toCvAndOthers al1 cv pe fe
         | _, _ => .error "cv.c touches a record although the thread is not inside a cv call"
+    else if a.file == "debug.c" && (getCtx al t).api = 5 then
+      -- emit_waiters called by emit_cv_state
+      match recSite a with
+      | none => .error s!"debug.c/{a.k}/{a.fn} {a.op} {a.ord} on a record field is not in the site table"
+      | some site =>
+        match properOf t site r a with
+        | some pe => toCvAndOthers al (getCtx al t).cv pe fe
+        | none => .error "record field: malformed operation"
     else if a.file == "common.c" && a.fn == "nsync_waiter_new_" && a.op == "st" && f == .rc then
       toAll al (fun _ => .wInit t r)
     else if a.file == "wait.c" && a.fn == "nsync_wait_n" && a.op == "st" then
@@ -410,6 +433,11 @@ def lineCall (al : Alt) (t : Tid) (nested : Bool) (api : String) (args : List St
   | "nsync_cv_broadcast", [cv] =>
     if c.api != 0 then some (.ok (al, false)) else
     some ((toCv al cv (.callBroadcast t)).map (fun p => (putCtx p.1 t { api := 3, cv := cv }, true)))
+  | "nsync_cv_debug_state", cv :: _ | "nsync_cv_debug_state_and_waiters", cv :: _ | "nsync_cv_debugger", cv :: _ =>
+    if nested || c.api != 0 then some (.ok (al, false)) else
+    let k : DKind := if api == "nsync_cv_debug_state" then .state
+      else if api == "nsync_cv_debug_state_and_waiters" then .waiters else .debugger
+    some ((toCv al cv (.callDebug t k)).map (fun p => (putCtx p.1 t { api := 5, cv := cv }, true)))
   | "nsync_wait_n", _mu :: _d :: _n :: objs =>
     if nested || c.api != 0 then some (.ok (al, false)) else
     let cvs := (objs.filter (fun o => o.startsWith "cv" || o.endsWith ".cv")).eraseDups
@@ -460,6 +488,11 @@ def lineRet (al : Alt) (t : Tid) (nested : Bool) (api : String) (res : List Stri
   | "nsync_cv_broadcast", ["-"] =>
     if c.api != 3 then some (.ok (al, false)) else
     some ((toCv al c.cv (.retBroadcast t)).map (fun p => (putCtx p.1 t {}, true)))
+  | "nsync_cv_debug_state", _ | "nsync_cv_debug_state_and_waiters", _ | "nsync_cv_debugger", _ =>
+    if nested || c.api != 5 then some (.ok (al, false)) else
+    let k : DKind := if api == "nsync_cv_debug_state" then .state
+      else if api == "nsync_cv_debug_state_and_waiters" then .waiters else .debugger
+    some ((toCv al c.cv (.retDebug t k)).map (fun p => (putCtx p.1 t {}, true)))
   | "nsync_wait_n", [_] =>
     if nested || c.api != 4 then some (.ok (al, false)) else
     let rec go (al : Alt) (l : List String) : Res :=
